@@ -4,8 +4,12 @@ resolver replaced by fakes, driven by abstract connection events under virtual t
 
 A *case* is (self address | read-only, connectionRetryTime, registered utility commands, initial
 nodes, event list).  Running it yields, per event, the canonical observation the Coq model
-(coq/Transport/Model.v: obs) must reproduce: every callback / dial / send / disconnect in order,
-followed by the whole registry.  While it runs, a monitor that only uses what the harness itself
+(coq/Transport/Model.v: obs_full) must reproduce: every callback / dial / send / disconnect in order,
+followed by the whole registry (_nodes/_nodeAddrToNode, _connections, _unknownConnections,
+_readonlyNodes + counter, _lastConnectAttempt, state / callbacks of every connection object ever
+created).  Only a 40-bit checksum of that observation goes into the generated .v file (Coq reads
+numerals slowly); the model computes the same checksum (Model.v: obs).  The un-hashed observation is
+kept in Impl.full for debugging.  While it runs, a monitor that only uses what the harness itself
 did (which address it dialled / named on which connection object, which nodes it added and
 dropped) checks the property text on the implementation.
 
@@ -40,8 +44,21 @@ def load_impl():
     return TR, ND, CF
 
 
+HMOD = 1099511627689   # 2^40 - 87, as in coq/Transport/Model.v
+
+
+def reg_hash(reg):
+    """the checksum coq/Transport/Model.v: hash_ll computes over obs_full"""
+    acc = 0
+    for l in reg:
+        for x in l:
+            acc = (acc * 1000003 + x + 12345) % HMOD
+        acc = (acc * 1000003 - 1 + 12345) % HMOD
+    return acc
+
+
 class Clock(object):
-    def __init__(self, ticks=1000 * 1024):
+    def __init__(self, ticks=1000):
         self.ticks = ticks
 
     def __call__(self):
@@ -259,7 +276,8 @@ class Monitor(object):
         self.named = {}               # cid -> address | 'readonly' named by the accepted handshake
         self.ro_of = {}               # cid -> id of the read-only Node created for it
         self.notif = {}               # node key -> cid of the outstanding "connected" notification
-        self.superseded = set()       # cids whose registration for their node was replaced by a later one
+        self.superseded = set()       # cids whose registration for their node was replaced by a later handshake
+        self.superseded_by_add = set()  # cids orphaned by a second addNode of the same node (unguarded application)
         self.current_for = {}         # node key -> cid that most recently became "the" connection of the node
         self.spoofed = set()          # node keys for which a peer we dial also dialled us (or a double add happened)
         self.problems = []            # (kind, text)
@@ -320,6 +338,9 @@ class Monitor(object):
         if c is None or k is None:
             self.bad('attribution', 'message delivered as from %r outside any connection event' % (k,))
             return
+        if c.cid in self.superseded:
+            self.bad('superseded', 'message delivered as from %r on connection %d, which a newer connection of that node superseded'
+                     % (k, c.cid))
         if k[0] == 'M':
             who = c.dialled if c.dialled is not None else self.named.get(c.cid)
             if c.dialled is not None and c.cid in self.named and self.named[c.cid] != c.dialled:
@@ -331,7 +352,8 @@ class Monitor(object):
                 self.bad('non-member', 'message delivered as from %r which was never a member' % (k[1],))
             elif k[1] not in self.members:
                 rec = 'message delivered as from removed node %r on connection %d' % (k[1], c.cid)
-                if c.cid in self.superseded:
+                if c.cid in self.superseded_by_add:
+                    # only reachable when the application adds a node it already has (SyncObj never does)
                     self.known_quirk.append(rec)
                 else:
                     self.bad('removed-node', rec)
@@ -346,10 +368,13 @@ class Monitor(object):
     def added(self, addr):
         k = ('M', addr)
         if addr in self.members:
+            for c in self.w.conns:
+                if c.dialled == addr or self.named.get(c.cid) == addr:
+                    self.superseded_by_add.add(c.cid)
             self.spoofed.add(k)           # double add: the registered object is replaced by a fresh one
             old = self.current_for.pop(k, None)
             if old is not None:
-                self.superseded.add(old)
+                self.superseded_by_add.add(old)
             self.notif.pop(k, None)
         self.members.add(addr)
         self.ever.add(addr)
@@ -397,7 +422,9 @@ class Impl(object):
         self.self_addr = self_addr
         w.self_addr = self_addr
         w.enc_payload = self.enc_payload
-        self.obs = []          # per event: list of number lists
+        self.obs = []          # per event: checksum of (outputs, then the registry) = what the model must reproduce
+        self.outs = []         # per event: the encoded outputs
+        self.full = []         # per event: outputs + the full canonical registry (debugging / witnesses)
         self.raised = []
         conf = CF.SyncObjConf(connectionRetryTime=retry_ticks / TICKS, connectionTimeout=3.5)
         self.syncobj = FakeSyncObj(conf)
@@ -519,7 +546,10 @@ class Impl(object):
         outs = [list(o) for o in self.w.log]
         if sort_outs:
             outs.sort()
-        self.obs.append(outs + self.registry(t))
+        reg = self.registry(t)
+        self.full.append(outs + reg)
+        self.outs.append(outs)
+        self.obs.append(reg_hash(outs + reg))
         self.w.log = []
 
     # ---- message objects ----------------------------------------------------------------
@@ -969,6 +999,8 @@ def _gen_and_run(rng, seed, world, TR, ND, CF, n_events):
             refuse = fr if fr is not None else []
         if act is None:
             act, tag = ('tick',), 'tick'
+        if act[0] in ('incoming', 'outconn', 'add', 'utilreply'):
+            refuse = []          # these handlers cannot reach connect(): keep the literals small
         if act[0] == 'tick' and refuse:
             tag = 'tick_with_refusals'
         ev = (now, refuse, act)
@@ -982,12 +1014,12 @@ def _gen_and_run(rng, seed, world, TR, ND, CF, n_events):
             members.remove(act[1][1])
     mon = impl.mon
     problems = list(mon.problems)
-    n_deliv = sum(1 for o in impl.obs for x in o if x and x[0] == 5)
-    n_dials = sum(1 for o in impl.obs for x in o if x and x[0] == 6)
-    n_notif = sum(1 for o in impl.obs for x in o if x and x[0] in (1, 2, 3, 4))
+    n_deliv = sum(1 for o in impl.outs for x in o if x[0] == 5)
+    n_dials = sum(1 for o in impl.outs for x in o if x[0] == 6)
+    n_notif = sum(1 for o in impl.outs for x in o if x[0] in (1, 2, 3, 4))
     return {
         'seed': seed, 'pool': pool, 'self': self_rank, 'retry': retry, 'utils': utils,
-        'events': events, 'tags': tags, 'expected': impl.obs, 'raised': impl.raised,
+        'events': events, 'tags': tags, 'expected': impl.obs, 'outs': impl.outs, 'raised': impl.raised,
         'problems': problems, 'known_quirk': list(mon.known_quirk), 'stats': stats,
         'unguarded': unguarded, 'spoofing': spoofing,
         'n_deliv': n_deliv, 'n_dials': n_dials, 'n_notif': n_notif, 'n_conns': len(world.conns),
@@ -1006,6 +1038,62 @@ def run_script(TR, ND, CF, pool, self_addr, retry, utils, initial, events, seed=
         return impl
     finally:
         uninstall(TR, ND)
+
+
+def script_case(name, TR, ND, CF, pool, self_addr, retry, utils, initial, events, tags=None):
+    """A fully expanded case as a dict of the same shape gen_and_run returns."""
+    pool_sorted = sorted(pool)
+    impl = run_script(TR, ND, CF, pool, self_addr, retry, utils, initial, events)
+    rank = {a: i for i, a in enumerate(pool_sorted)}
+    t0 = events[0][0] if events else 0
+    all_events = [(t0, [], ('add', rank[a])) for a in initial] + list(events)
+    mon = impl.mon
+    obs = impl.outs
+    return {
+        'seed': name, 'pool': pool_sorted, 'self': None if self_addr is None else rank[self_addr], 'retry': retry,
+        'utils': list(utils), 'events': all_events, 'tags': (['add'] * len(initial)) + (tags or ['scripted'] * len(events)),
+        'expected': impl.obs, 'outs': impl.outs, 'raised': impl.raised, 'problems': list(mon.problems), 'known_quirk': list(mon.known_quirk),
+        'stats': {}, 'unguarded': False, 'spoofing': False,
+        'n_deliv': sum(1 for o in obs for x in o if x[0] == 5),
+        'n_dials': sum(1 for o in obs for x in o if x[0] == 6),
+        'n_notif': sum(1 for o in obs for x in o if x[0] in (1, 2, 3, 4)),
+        'n_conns': len(impl.w.conns),
+    }
+
+
+T0 = 1000
+SCRIPTS = {
+    # FX-C14-1: b dials us twice (the first connection went stale), then b is dropped; messages on either
+    # old connection must not be delivered (before the repair the superseded one kept delivering as from b)
+    'superseded_then_drop': dict(
+        pool=['a:1', 'b:1', 'c:1'], self_addr='a:1', retry=5120, utils=[], initial=['b:1'],
+        events=[(T0, [], ('incoming',)), (T0, [], ('msg', 0, (0, 1), 0)),
+                (T0, [], ('incoming',)), (T0, [], ('msg', 1, (0, 1), 0)),
+                (T0, [], ('msg', 0, (5, 6), 0)),
+                (T0, [], ('drop', (0, 1))), (T0, [], ('msg', 0, (5, 7), 0)), (T0, [], ('msg', 1, (5, 8), 0))]),
+    # witness of C14_unknown_rejected_refuted: unhashable / malformed first messages raise instead of disconnecting
+    'malformed_first_message': dict(
+        pool=['a:1', 'b:1', 'c:1'], self_addr='a:1', retry=5120, utils=[0], initial=['b:1'],
+        events=[(T0, [], ('incoming',)), (T0, [], ('msg', 0, (2, 4), 0)), (T0, [], ('msg', 0, (4, 1), 0)),
+                (T0, [], ('msg', 0, (3, 0), 0)), (T0, [], ('msg', 0, (0, 1), 0)), (T0, [], ('msg', 0, (5, 9), 0))]),
+    # witness of C14_no_delivery_after_drop_unguarded_refuted: an application that adds a node twice
+    'double_add_then_drop': dict(
+        pool=['a:1', 'b:1', 'c:1'], self_addr='b:1', retry=5120, utils=[], initial=['a:1'],
+        events=[(T0, [], ('tick',)), (T0, [], ('outconn', 0)), (T0 + 1, [], ('add', 0)),
+                (T0 + 2, [], ('drop', (0, 0))), (T0 + 3, [], ('msg', 0, (5, 7), 0))]),
+    # a peer we dial also dials us: our outgoing object is superseded (and now disconnected); the re-dial then uses
+    # the incoming object, which has no onConnected callback
+    'both_sides_dial': dict(
+        pool=['a:1', 'b:1', 'c:1'], self_addr='c:1', retry=5120, utils=[], initial=['b:1'],
+        events=[(T0, [], ('tick',)), (T0, [], ('outconn', 0)), (T0, [], ('incoming',)), (T0, [], ('msg', 1, (0, 1), 0)),
+                (T0, [], ('msg', 0, (5, 1), 0)), (T0 + 1, [], ('closed', 1)), (T0 + 6000, [], ('tick',)),
+                (T0 + 6000, [], ('outconn', 1)), (T0 + 6001, [], ('send', (0, 1), 5, 0))]),
+}
+
+
+def run_named_script(name, TR, ND, CF):
+    sc = SCRIPTS[name]
+    return script_case(name, TR, ND, CF, sc['pool'], sc['self_addr'], sc['retry'], sc['utils'], sc['initial'], sc['events'])
 
 
 # ---------------------------------------------------------------------------------------------
@@ -1062,10 +1150,10 @@ def v_event(ev):
 
 def v_case(name, case):
     evs = '[' + ';\n  '.join(v_event(e) for e in case['events']) + ']'
-    exp = '[' + ';\n  '.join('[' + ';'.join(v_zlist(x) for x in o) + ']' for o in case['expected']) + ']'
+    exp = v_zlist(case['expected'])
     self_v = 'None' if case['self'] is None else '(Some %s)' % v_z(case['self'])
     utils_v = '[' + ';'.join('%d%%N' % u for u in case['utils']) + ']'
     defs = ('Definition ev_%s : list event := %s.\n'
-            'Definition ex_%s : list (list (list Z)) := %s.\n' % (name, evs, name, exp))
+            'Definition ex_%s : list Z := %s.\n' % (name, evs, name, exp))
     call = '(check_case %s %s %s ev_%s ex_%s)' % (self_v, v_z(case['retry']), utils_v, name, name)
     return defs, call
